@@ -6,5 +6,6 @@ pub mod runner;
 pub mod sched;
 pub mod selftest;
 pub mod sim;
+pub mod stress;
 pub mod svc;
 pub mod vclock;
